@@ -391,6 +391,15 @@ func fsExecInProc(sp *fsSpec) string {
 		ps.oversize[uint64(h)] = true
 	}
 	r := fsRun(c, []*fsPeerSpec{ps}, 2500*time.Millisecond, 10*time.Second)
+	if sp.announce > uint64(sp.heights) {
+		// A peer that announces more than it serves: the 60 requesters compete for the peer's 30 request slots, and a slot is
+		// freed only by a BLOCK (a NoBlockResponse frees nothing), so which of the low heights get requested at all is up to the
+		// scheduler.  How far the node gets is not a function of the case: it is not compared (safety fields still are).
+		return strings.Replace(fsAnswer(r), fmt.Sprintf("applied=%d ", r.applied), "applied=* ", 1)
+	}
+	if d := os.Getenv("C03_FSYNC_DUMP"); d != "" && len(r.dropped) == 0 && !r.switched && sp.announce <= uint64(sp.heights) && !strings.HasPrefix(sp.relay, "noblock") {
+		os.WriteFile(fmt.Sprintf("%s/stall-%d.txt", d, os.Getpid()), []byte(sp.line()+"\n"+fsAnswer(r)+"\n"+r.stacks), 0o644)
+	}
 	return fsAnswer(r)
 }
 
@@ -454,16 +463,25 @@ func fsChild(op string) string {
 }
 
 // fsRetries counts child runs that were repeated because the node sat idle with its peer still connected although the case
-// gives it no reason to (seen about once in 60 runs inside a full harness run, never in isolation; cause not established).
+// gives it no reason to.  CAUSE (established from goroutine dumps): BlockPool.RedoRequest returns `request.peerID` AFTER
+// removePeer has signalled the requester to reset, and the requester goroutine may already have cleared it: poolRoutine then
+// looks up peer "" and never calls StopPeerForError - the refused peer leaves the pool but stays connected (proposed finding
+// fastsync-refused-peer-not-stopped, /verif/proposed/C03-fastsync-refused-peer-not-stopped.md; about 1 refusal in 30).
+// The repetition cannot turn a refusal into a pass: a repeated run is used only if it applied EXACTLY the same heights.
 var fsRetries int32
 
 func fsChildRun(op string) string {
 	sp := fsParseSpec(hx.Tokens(op))
-	expectStall := strings.HasPrefix(sp.relay, "noblock:") || sp.announce > uint64(sp.heights)
+	expectStall := strings.HasPrefix(sp.relay, "noblock:") || sp.announce > uint64(sp.heights) || sp.announce < 2
 	ans := fsChildOnce(op)
+	applied := func(a string) string { v, _ := hx.Arg(hx.Tokens(a), "applied"); return v }
 	for k := 0; k < 2 && !expectStall && strings.HasSuffix(ans, "dropped=- switched=false"); k++ {
 		atomic.AddInt32(&fsRetries, 1)
-		ans = fsChildOnce(op)
+		again := fsChildOnce(op)
+		if applied(again) != applied(ans) || strings.HasPrefix(again, "panic") {
+			break // not the same outcome: the first answer stands
+		}
+		ans = again
 	}
 	return ans
 }
